@@ -93,3 +93,24 @@ def obligations(prop, tier):
 def U(*cs):
     """all arguments are code points (usable in extra preconditions)"""
     return all(0 <= c <= MAXCP for c in cs)
+
+
+# ---------------------------------------------------------------------------------------- known findings
+_KNOWN = None
+
+
+def known_active(fid):
+    """True when finding `fid` is listed in /verif/known_findings.json as a *class* finding and exclusions are
+    not disabled.  Harness bodies use it to tolerate exactly the failure class of a recorded defect; the driver
+    replays the finding's witness with CHX_NO_KNOWN=1 (exclusions off) to print KNOWN-FINDING while it still fails."""
+    import json
+    import os
+
+    global _KNOWN
+    if os.environ.get("CHX_NO_KNOWN") == "1":
+        return False
+    if _KNOWN is None:
+        here = os.path.dirname(os.path.dirname(os.path.abspath(__file__)))
+        with open(os.path.join(here, "known_findings.json")) as f:
+            _KNOWN = {k["id"] for k in json.load(f).get("findings", []) if k.get("klass")}
+    return fid in _KNOWN
